@@ -33,6 +33,7 @@ func init() {
 				}
 				emit(hx(txt) + "\tdirect")
 				emit(hx(txt) + "\tengine")
+				emit(hx(txt) + "\tenginesrc")
 				// The same subset on a blocking rule (mostly rejected: the
 				// modifiers are exception-only) and with other general
 				// modifiers.
@@ -67,6 +68,18 @@ func init() {
 			mi := line
 			var opt rules.CosmeticOption
 			switch mode {
+			case "enginesrc":
+				// the same exception on a page that has a referrer matched by document-level exceptions of its own
+				// ($genericblock / $urlblock only ever suppress BLOCKING rules): the option is the one of the rule alone
+				refMods := []string{"genericblock", "urlblock", "genericblock,urlblock", "genericblock,important"}[len(text)%4]
+				s, serr := filterlist.NewRuleStorage([]filterlist.RuleList{
+					&filterlist.StringRuleList{ID: 1, RulesText: text + "\n@@||a.org^$" + refMods + "\n||example.org^$script\n"},
+				})
+				must(serr)
+				e := urlfilter.NewEngine(s)
+				res := e.MatchRequest(rules.NewRequest("http://example.org/", "http://a.org/page", rules.TypeDocument))
+				opt = res.GetCosmeticOption()
+				mi = f[0] + "\tdirect"
 			case "direct":
 				res := rules.NewMatchingResult([]*rules.NetworkRule{rule}, nil)
 				opt = res.GetCosmeticOption()
